@@ -1,7 +1,7 @@
 (* Model/RefName.v — G for C13 (and the IsSafe half of C14):
    plumbing/reference.go ReferenceName.Validate, IsBranch, IsTag, IsSafe,
-   as they are in the repository (after the C13 repair: rule 9 is about the
-   whole name, not about a component).  Executable definitions only.
+   as they are in the repository (defect included: rule 9, "the single
+   character @", is applied to every component).  Executable definitions only.
    Prefix constants come from Gen/C13.v (regenerated from the Go source). *)
 From Coq Require Import List Arith NArith ZArith Bool String.
 From GoGit Require Import Base.Out Model.RefStrings Gen.C13.
@@ -34,6 +34,7 @@ Definition part_bad (part : bytes) : bool :=
   || existsb is_ctrl part          (* rule 4 *)
   || contains_any rule_chars part  (* rule 4 & 5 *)
   || contains [AT; LBRACE] part    (* rule 8 *)
+  || beqb part [AT]                (* rule 9, per component *)
   || contains [BSLASH] part        (* rule 10 *)
   || has_suffix DOTLOCK part.      (* rule 1 *)
 
